@@ -63,20 +63,29 @@ pub fn gen(ctx: &mut Ctx) {
         emit(ctx, "control-cbor", &[s.clone()], &cbor(&passkey_types::Bytes::from(s.clone())));
         ctx.line("sec.end", "-");
     }
-    let n = if ctx.thorough { 200 } else { 25 };
-    let url = "https://www.example.com";
+    let n = if ctx.thorough { 200 } else { 30 };
     for i in 0..n {
+        match i % 3 {
+            0 => one(ctx, i, MemoryStore::new()),
+            1 => one(ctx, i, RefStore::new(d_full_pub)),          // stores the user handle only on request: non-discoverable credentials exist
+            _ => one(ctx, i, RefStore::new(d_non_pub)),
+        }
+    }
+}
+
+fn one<S: Inner + 'static>(ctx: &mut Ctx, i: usize, inner: S) {
+    let url = "https://www.example.com";
         ctx.line("sec.reset", "-");
         let log = new_log();
         let uvst = Arc::new(Mutex::new(UvState::ok()));
-        let store = RecStore::new(MemoryStore::new(), log.clone());
+        let store = RecStore::new(inner, log.clone());
         let mut auth = Authenticator::new(Aaguid::from(crate::util::AAGUID), store, SharedUv { st: uvst.clone(), log: log.clone(), yields: false });
         auth.set_make_credentials_with_signature_counter(i % 2 == 0);
         auth.set_make_credential_id_length(CredentialIdLength::from(*ctx.rng.pick(&[16u8, 32, 64])));
         let hm = match i % 4 { 0 => None, 1 => Some(HmacSecretConfig::new_with_uv_only().enable_on_make_credential()), 2 => Some(HmacSecretConfig::new_without_uv().enable_on_make_credential()), _ => Some(HmacSecretConfig::new_without_uv()) };
         if let Some(c) = hm { auth = auth.hmac_secret(c); }
         let mut client = Client::new(auth);
-        let all = |c: &Client<RecStore<MemoryStore>, SharedUv, public_suffix::PublicSuffixList>| -> Vec<Passkey> { c.authenticator().store().inner.values().cloned().collect() };
+        let all = |c: &Client<RecStore<S>, SharedUv, public_suffix::PublicSuffixList>| -> Vec<Passkey> { c.authenticator().store().inner.all() };
         // --- authenticator info
         let info = crate::env::block_on(client.authenticator().get_info());
         emit(ctx, "info:cbor", &[], &cbor(&info));
@@ -141,7 +150,7 @@ pub fn gen(ctx: &mut Ctx) {
                 pub_key_cred_params: vec![PublicKeyCredentialParameters { ty: PublicKeyCredentialType::PublicKey, alg: coset::iana::Algorithm::ES256 }],
                 exclude_list: None,
                 extensions: Some(make_credential::ExtensionInputs { hmac_secret: Some(true), hmac_secret_mc: None, prf: Some(AuthenticatorPrfInputs { eval: Some(AuthenticatorPrfValues { first: [7u8; 32], second: Some([8u8; 32]) }), eval_by_credential: None }) }),
-                options: make_credential::Options { rk: true, up: true, uv: step % 2 == 0 }, pin_auth: None, pin_protocol: None };
+                options: make_credential::Options { rk: step % 3 != 1, up: true, uv: step % 2 == 0 }, pin_auth: None, pin_protocol: None };
             let res = guarded(|| crate::env::block_on(client.authenticator_mut().make_credential(req)));
             let mut secrets = secrets_of(&all(&client));
             if let Some(Ok(r)) = &res { secrets.extend(attested_private_member(&r.auth_data.to_vec())); }
@@ -175,7 +184,7 @@ pub fn gen(ctx: &mut Ctx) {
         }
         // --- U2F
         let (challenge, application): ([u8; 32], [u8; 32]) = (ctx.rng.bytes(32).try_into().unwrap(), ctx.rng.bytes(32).try_into().unwrap());
-        let handle = ctx.rng.bytes_in(1, 64);
+        let handle = if i % 4 == 3 { vec![] } else { ctx.rng.bytes_in(1, 64) };
         let res = guarded(|| crate::env::block_on(U2fApi::register(client.authenticator_mut(), RegisterRequest { challenge, application }, &handle)));
         let secrets = secrets_of(&all(&client));
         match res {
@@ -190,5 +199,4 @@ pub fn gen(ctx: &mut Ctx) {
             None => { emit(ctx, "panic", &secrets, b"panic"); }
         }
         ctx.line("sec.end", "-");
-    }
 }
